@@ -649,9 +649,9 @@ func familyRead(s *hlib.Suite, r *hlib.Rng, n int, thorough bool) {
 		if r.Chance(1, 8) {
 			nrows = 0
 		}
-		bigHint := (thorough && it%60 == 5) || it == 7 // one large RowCountHint case in every run
+		bigHint := (thorough && it%60 == 5) || it%250 == 7 // large RowCountHint cases in every run
 		if bigHint {
-			nrows = 998 + r.Intn(6)
+			nrows = 999 + r.Intn(5) // the column buffers are re-sized when the 1000th row arrives
 			ncols = 1 + r.Intn(2)
 		}
 		names := make([][]byte, ncols)
@@ -720,7 +720,7 @@ func familyRead(s *hlib.Suite, r *hlib.Rng, n int, thorough bool) {
 			hint = []int{-1, 1, 1999, 2000, 2001, 5000}[r.Intn(6)]
 		}
 		if bigHint {
-			hint = []int{2000, 2001, 3000}[r.Intn(3)]
+			hint = []int{2000, 2001, 3000, 30000}[r.Intn(4)]
 		}
 		fns = append(fns, csv.EmptyNull(emptyNull), csv.IgnoreEmptyLines(ignoreEmpty), csv.RenameDuplicateColumns(rename),
 			csv.MissingColumnNameAlias(alias), csv.RowCountHint(hint))
